@@ -125,6 +125,13 @@ def fire(st, Table, full, nosamp):
             Table(m, ["a", "b"], ["x", "y"], sample_metadata=[{"k": "v"}, {"k": "w"}, {"k": "z"}])
         else:
             raise ValueError(k)
+    elif site == "constructor_zero_length_md":          # a metadata sequence of length zero next to two IDs
+        if k == "obsmdsize":
+            Table(m, ["a", "b"], ["x", "y"], observation_metadata=[])
+        elif k == "sampmdsize":
+            Table(m, ["a", "b"], ["x", "y"], sample_metadata=[])
+        else:
+            raise ValueError(k)
     elif site == "filter_inplace":
         full.copy().filter([], axis="sample", inplace=True)
     elif site == "filter_copy":
